@@ -753,6 +753,14 @@ func c19Helpers(w *World, r *Report) {
 				}
 			}
 			if !okKnown {
+				// the question may have been delegated to a guard helper: G(closer) == false on this path
+				for v, t := range e.State.Facts {
+					if c, isCall := v.(*ssa.Call); isCall && !t {
+						if sc := c.Call.StaticCallee(); sc != nil && inModule(sc) && len(c.Call.Args) == 1 && fromParam(c.Call.Args[0]) && isClosedGuard(w, sc) {
+							return
+						}
+					}
+				}
 				bad = "Close() is called on a path that never asked whether the value implements Closed"
 				return
 			}
@@ -782,3 +790,54 @@ func c19Helpers(w *World, r *Report) {
 }
 
 var _ = token.NoPos
+
+// isClosedGuard: g(closer) bool returns false only for values that do not
+// implement Closed or whose Closed() is false (i.e. it returns true whenever
+// the value reports itself closed).
+func isClosedGuard(w *World, g *ssa.Function) bool {
+	if len(g.Params) != 1 || len(g.Blocks) == 0 {
+		return false
+	}
+	param := g.Params[0]
+	fromP := func(v ssa.Value) bool {
+		for _, root := range provenance(v, provOpts{}) {
+			if root == ssa.Value(param) {
+				return true
+			}
+		}
+		return false
+	}
+	good, n := true, 0
+	okp := enumPaths(g, nil, nil, nil, func(e pathExit) {
+		ret, isRet := e.Last.(*ssa.Return)
+		if !isRet || len(ret.Results) != 1 {
+			return
+		}
+		n++
+		rv := e.State.Resolve(ret.Results[0])
+		if b, isC := constBool(rv); isC {
+			if b {
+				return
+			}
+			// returns false: justified by "does not implement Closed" or "Closed() == false"
+			for v, t := range e.State.Facts {
+				if ex, isEx := v.(*ssa.Extract); isEx && ex.Index == 1 && !t {
+					if ta, isTA := ex.Tuple.(*ssa.TypeAssert); isTA && fromP(ta.X) {
+						return
+					}
+				}
+				if c, isCall := v.(*ssa.Call); isCall && !t && c.Call.IsInvoke() && c.Call.Method.Name() == "Closed" {
+					return
+				}
+			}
+			good = false
+			return
+		}
+		// returns exactly the Closed() answer
+		if c, isCall := rv.(*ssa.Call); isCall && c.Call.IsInvoke() && c.Call.Method.Name() == "Closed" && fromP(c.Call.Value) {
+			return
+		}
+		good = false
+	})
+	return okp && good && n > 0
+}
